@@ -42,17 +42,19 @@ type gTask struct {
 	Model   int      `json:"m"`
 	History []string `json:"h"`
 	Depth   int      `json:"d"`
+	List    bool     `json:"list,omitempty"` // only list the events enabled in the state (no successor is built)
+	Only    string   `json:"only,omitempty"` // build the successor(s) of this event only
 }
 
 type gSucc struct {
-	Event  string          `json:"e"`
-	Key    string          `json:"k"`
-	Fails  []simrt.Failure `json:"f,omitempty"`
-	Obs    string          `json:"o,omitempty"`
-	Final  bool            `json:"fin,omitempty"`
-	Steps  int             `json:"s"`
-	Class  string          `json:"c,omitempty"`
-	Tags   []string        `json:"t,omitempty"`
+	Event string          `json:"e"`
+	Key   string          `json:"k"`
+	Fails []simrt.Failure `json:"f,omitempty"`
+	Obs   string          `json:"o,omitempty"`
+	Final bool            `json:"fin,omitempty"`
+	Steps int             `json:"s"`
+	Class string          `json:"c,omitempty"`
+	Tags  []string        `json:"t,omitempty"`
 }
 
 type gResult struct {
@@ -90,10 +92,10 @@ type GFound struct {
 
 // Graph is the explored state graph of one model (when KeepGraph).
 type Graph struct {
-	Keys  []string         // state index -> key
-	Index map[string]int   // key -> index
-	Edges [][]GEdge        // per state
-	Hist  [][]string       // shortest history per state
+	Keys    []string       // state index -> key
+	Index   map[string]int // key -> index
+	Edges   [][]GEdge      // per state
+	Hist    [][]string     // shortest history per state
 	histIdx map[string]int
 }
 
@@ -110,7 +112,7 @@ func runBuild(m GModel, hist []string) (GView, []simrt.Failure, int) {
 		fails = append(fails, simrt.Failure{Key: "panic|" + simrt.PanicKey(x.Panic), Msg: "panic in " + x.Panic.Thread + ": " + x.Panic.Value + "\n" + x.Panic.Stack})
 	}
 	if x.Truncated {
-		fails = append(fails, simrt.Failure{Key: "engine|steplimit", Msg: "step limit exceeded"})
+		fails = append(fails, simrt.Failure{Key: "livelock|step-limit", Msg: "handling this event does not come to an end: the step limit of the execution was exceeded (unbounded loop or recursion through scheduling points)"})
 	}
 	return v, fails, x.Steps
 }
@@ -150,6 +152,13 @@ func GWorker(models []GModel) {
 			}
 		}
 		for _, e := range v.Enabled {
+			if t.List {
+				res.Succ = append(res.Succ, gSucc{Event: e})
+				continue
+			}
+			if t.Only != "" && e != t.Only {
+				continue
+			}
 			h2 := append(append([]string(nil), t.History...), e)
 			v2, f2, steps := runBuild(m, h2)
 			res.Runs++
@@ -168,10 +177,55 @@ func GWorker(models []GModel) {
 	})
 }
 
+// FatalKey is the violation key for an input / event that makes the Go runtime kill the process (stack
+// overflow, concurrent map access, out of memory): nothing a recover() could catch.
+const FatalKey = "fatal|process-killed"
+
+// bisectDied expands the state of a task whose worker died event by event, each in a worker of its own, and
+// returns the merged result; the events that kill their worker are recorded as violations.
+func bisectDied(pool *Pool, sum *GSummary, models []GModel, t gTask) json.RawMessage {
+	merged := gResult{Model: t.Model}
+	lt := t
+	lt.List = true
+	lraw := pool.Map([]any{lt}, nil)[0]
+	if Died(lraw) {
+		sum.addFound(simrt.Failure{Key: FatalKey, Msg: "re-building the state reached by this history killed the worker process (fatal error of the Go runtime)"}, models[t.Model].Name, t.History)
+		b, _ := json.Marshal(merged)
+		return b
+	}
+	var lres gResult
+	if err := json.Unmarshal(lraw, &lres); err != nil {
+		EngineError("result: %v", err)
+	}
+	merged.Runs += lres.Runs
+	var single []any
+	for _, s := range lres.Succ {
+		st := t
+		st.Only = s.Event
+		single = append(single, st)
+	}
+	for i, raw := range pool.Map(single, nil) {
+		ev := single[i].(gTask).Only
+		if Died(raw) {
+			sum.addFound(simrt.Failure{Key: FatalKey, Msg: "event " + ev + " makes the Go runtime kill the process (fatal error: stack overflow, concurrent map access or out of memory - not recoverable)"},
+				models[t.Model].Name, append(append([]string(nil), t.History...), ev))
+			continue
+		}
+		var res gResult
+		if err := json.Unmarshal(raw, &res); err != nil {
+			EngineError("result: %v", err)
+		}
+		merged.Runs += res.Runs
+		merged.Succ = append(merged.Succ, res.Succ...)
+	}
+	b, _ := json.Marshal(merged)
+	return b
+}
+
 // GExploreAll runs the breadth-first search of every model to fixpoint (or its depth bound).
 func GExploreAll(r *Run, models []GModel) *GSummary {
 	sum := &GSummary{PerModel: map[string][2]int{}, Found: map[string]*GFound{}, Graphs: map[string]*Graph{}, Reps: map[string][]string{}, RepModel: map[string]int{}, TagCount: map[string]int{}, ClassOf: map[string]string{}}
-	pool := NewPool(r.NProc, os.Args[1:]...)
+	pool := NewTolerantPool(r.NProc, os.Args[1:]...)
 	defer pool.Close()
 	type st struct {
 		hist []string
@@ -226,6 +280,12 @@ func GExploreAll(r *Run, models []GModel) *GSummary {
 		}
 		next := make([][][]string, len(models))
 		results := pool.Map(tasks, nil)
+		for ti, raw := range results {
+			if Died(raw) {
+				// the worker process was killed by the Go runtime while expanding this state: find the event(s)
+				results[ti] = bisectDied(pool, sum, models, tasks[ti].(gTask))
+			}
+		}
 		for ti, raw := range results {
 			var res gResult
 			if err := json.Unmarshal(raw, &res); err != nil {
@@ -398,6 +458,9 @@ func GConfirm(sum *GSummary, models []GModel) []Violation {
 	}
 	viol := sum.Violations()
 	for _, v := range viol {
+		if v.Key == FatalKey {
+			continue // confirmed in worker processes of their own (re-running it here would kill this process)
+		}
 		f := sum.Found[v.Key]
 		m := byName[f.Model]
 		ok := 0
@@ -436,6 +499,31 @@ func GMaybeReplay(r *Run, models []GModel) {
 	if err := json.Unmarshal(b, &art); err != nil {
 		EngineError("replay: %v", err)
 	}
+	if art.Key == FatalKey {
+		// the last event kills the process that executes it: run it in a worker and look whether it survives
+		for mi, m := range models {
+			if m.Name == art.Replay.Model && len(art.Replay.History) > 0 {
+				pool := NewTolerantPool(1, os.Args[1:]...)
+				n := len(art.Replay.History)
+				last := art.Replay.History[n-1]
+				var task any = gTask{Model: mi, History: art.Replay.History[:n-1], Only: last}
+				if strings.HasPrefix(last, "P:") {
+					var i int
+					fmt.Sscanf(last[2:], "%d", &i)
+					task = gProbeTask{Probe: true, Model: mi, History: art.Replay.History[:n-1], From: i, To: i + 1}
+				}
+				raw := pool.Map([]any{task}, nil)[0]
+				pool.Close()
+				if Died(raw) {
+					fmt.Printf("the worker process executing %s after %v was killed by the Go runtime\n", last, art.Replay.History[:n-1])
+					fmt.Printf("VIOLATION property=%s replay=%s\n", r.ID, r.ReplayIn)
+					os.Exit(1)
+				}
+				fmt.Println("not reproduced")
+				os.Exit(0)
+			}
+		}
+	}
 	for _, m := range models {
 		if m.Name == art.Replay.Model {
 			for i := 1; i <= len(art.Replay.History); i++ {
@@ -465,8 +553,8 @@ type gProbeTask struct {
 }
 
 type gProbeResult struct {
-	Runs  int             `json:"r"`
-	Fails []gProbeFail    `json:"f,omitempty"`
+	Runs  int          `json:"r"`
+	Fails []gProbeFail `json:"f,omitempty"`
 }
 
 type gProbeFail struct {
@@ -477,7 +565,7 @@ type gProbeFail struct {
 // GProbe delivers the probe events P:<from..to-1> in one representative state per class (after
 // the search) without expanding their successors. Violations are added to sum.Found.
 func GProbe(r *Run, sum *GSummary, models []GModel, nProbes, chunk int) {
-	pool := NewPool(r.NProc, os.Args[1:]...)
+	pool := NewTolerantPool(r.NProc, os.Args[1:]...)
 	defer pool.Close()
 	var tasks []any
 	var keys []string
@@ -494,7 +582,32 @@ func GProbe(r *Run, sum *GSummary, models []GModel, nProbes, chunk int) {
 			tasks = append(tasks, gProbeTask{Probe: true, Model: sum.RepModel[rk], History: sum.Reps[rk], From: a, To: b})
 		}
 	}
-	for ti, raw := range pool.Map(tasks, nil) {
+	results := pool.Map(tasks, nil)
+	// a chunk whose worker died is repeated probe by probe
+	var single []any
+	for ti, raw := range results {
+		if Died(raw) {
+			t := tasks[ti].(gProbeTask)
+			for i := t.From; i < t.To; i++ {
+				single = append(single, gProbeTask{Probe: true, Model: t.Model, History: t.History, From: i, To: i + 1})
+			}
+			results[ti] = json.RawMessage(`{"r":0}`)
+		}
+	}
+	if len(single) > 0 {
+		for i, raw := range pool.Map(single, nil) {
+			t := single[i].(gProbeTask)
+			if Died(raw) {
+				ev := fmt.Sprintf("P:%d", t.From)
+				sum.addFound(simrt.Failure{Key: FatalKey, Msg: "input " + ev + " makes the Go runtime kill the process (fatal error: stack overflow, concurrent map access or out of memory - not recoverable)"},
+					models[t.Model].Name, append(append([]string(nil), t.History...), ev))
+				continue
+			}
+			tasks = append(tasks, t)
+			results = append(results, raw)
+		}
+	}
+	for ti, raw := range results {
 		var res gProbeResult
 		if err := json.Unmarshal(raw, &res); err != nil {
 			EngineError("probe result: %v", err)
